@@ -237,6 +237,36 @@ Example C05_ex_nts_tampered :
   = LFail 1 ENoUid.
 Proof. vm_compute. reflexivity. Qed.
 
+(* D-C05a: at the level of MeasureClockOffsetSCION the clause "every other datagram yields an error,
+   never an offset" is FALSE of the faithful model: with one client, a call in which no datagram is
+   genuine (here: the only datagram has stratum 0) ends every exchange with an error, and the call
+   returns offset 0 with a nil error (the zero Measurement that FaultTolerantMidpoint finds in the
+   slice collectMeasurements left empty).  The witness is replayed on the implementation by the
+   case kind scion.allfail. *)
+Theorem C05_scion_allfail_refuted :
+  exists c envs,
+    (forall e g h, In e envs -> In (EvDgram g) (e_evs e) -> ~ genuine ex_open_none (make_request c cstate0 e) g h) /\
+    exists st' lrs er, call ex_open_none c cstate0 envs = (st', CError er, lrs) /\
+                       scion_return (CError er) = COffset 0 0.
+Proof.
+  exists {| c_scion := true; c_imode := false; c_nts := false; c_server := 2130706433; c_server_ia := 1; c_local_ia := 2;
+            c_local := 2130706433; c_deadline := true |}.
+  exists [{| e_ref := 1700000000000000000; e_ctx1 := 1700000000000001000; e_uid := []; e_s2c := []; e_authkey := false;
+             e_evs := [EvDgram {| g_before := true; g_xflags := 0;
+                                  g_front := FrontSCION {| sv_decode_ok := true; sv_nlayers := 2; sv_last := 0; sv_len_ok := true;
+                                                           sv_src_ia := 1; sv_dst_ia := 2; sv_src_host := Some 2130706433;
+                                                           sv_dst_host := Some 2130706433; sv_e2e := false; sv_tsopt := None;
+                                                           sv_auth := AuthNone |};
+                                  g_payload := ex_hdr 36 0 (ex_t 3908988800 0) (ex_t 3908988800 1000000) (ex_t 3908988800 2000000);
+                                  g_crx := 1700000000000900000 |}] |}].
+  split.
+  - intros e g h [He|[]] Hg. subst e. simpl in Hg. destruct Hg as [Hg|[]]. inversion Hg; subst g. clear Hg.
+    intros (_ & _ & _ & HD & _ & _ & (_ & _ & _ & HS & _) & _).
+    vm_compute in HD. inversion HD; subst h. apply HS. reflexivity.
+  - eexists. eexists. eexists. split; [vm_compute; reflexivity | reflexivity].
+Qed.
+Print Assumptions C05_scion_allfail_refuted.
+
 (* the ideal-AEAD hypothesis of C05_nts_authentic has an instance *)
 Example C05_ex_ideal : exists (sealed : bytes -> bytes -> bytes -> bytes -> bytes -> Prop),
   forall k n ad ct pt, ex_open k n ad ct = Some pt -> sealed k n ad pt ct.
